@@ -137,9 +137,12 @@ class Union:
         for tagmap_name in ['_tagmap'] + tagmap_names:
             if tag in getattr(self, tagmap_name):
                 validator = getattr(self, tagmap_name)[tag]
-        assert validator is not None, 'Invalid tag %r.' % tag
+        if validator is None:
+            raise bv.ValidationError('invalid tag %r' % (tag,))
         if isinstance(validator, bv.Void):
-            assert value is None, 'Void type union member must have None value.'
+            if value is not None:
+                raise bv.ValidationError(
+                    'void type union member %r must have None value' % (tag,))
         elif isinstance(validator, (bv.Struct, bv.Union)):
             validator.validate_type_only(value)
         else:
